@@ -168,6 +168,12 @@ struct ArenaRegistry {
 template <typename T>
 struct ArenaAlloc {
     typedef T value_type;
+    typedef size_t size_type;
+    typedef std::ptrdiff_t difference_type;
+    typedef T* pointer;
+    typedef const T* const_pointer;
+    typedef T& reference;
+    typedef const T& const_reference;
     int arena;
     ArenaAlloc(int a = 0) noexcept : arena(a) {}
     template <typename U>
@@ -178,6 +184,9 @@ struct ArenaAlloc {
         return p;
     }
     void deallocate(T* p, size_t n) noexcept {
+        // deallocate(nullptr, n) is what std::allocator tolerates and several tlx containers
+        // do for an unallocated state; it releases nothing, so it is not an accounting event
+        if (p == nullptr) return;
         ArenaRegistry::get().on_free(p, arena, n * sizeof(T));
         ::operator delete(p);
     }
